@@ -74,6 +74,8 @@ def check(case, rec):
     rec.note(case, odd_index or matrix_nt, cl)
     sc = G.materialise(seqs, cont, case.get("perm", 0))
     sc2 = G.materialise(seqs2, cont2, case.get("perm", 0)) if cross else None
+    if cross and case.get("alias") and list(seqs) == list(seqs2):
+        sc2 = sc          # one container object passed as both collections: still a two-collection call (rectangle incl. diagonal)
     got = call("search", run, case, sc, sc2)
     ctx = f"engine={case['engine']} container={cont}/{cont2} output={case['output_type']} k={k}"
     if case["output_type"] == "triplets":
@@ -129,6 +131,9 @@ def search_case(draw, tier="quick"):
             q = [s[:6] for s in q][:8]
         case["seqs2"] = q
         case["container2"] = draw(st.sampled_from(G.CONTAINERS))
+        if draw(st.integers(0, 4)) == 0:
+            case["seqs2"] = list(case["seqs"])
+            case["alias"] = True
     return case
 
 
